@@ -589,7 +589,7 @@ func run(sc vh.Scenario, dir string, rec *vh.Rec) {
 			w.mu.Lock()
 			w.emit(vh.Event{"ev": "Stopped", "prompt": true})
 			w.mu.Unlock()
-		case <-time.After(time.Duration(2*slotSec) * time.Second):
+		case <-time.After(time.Duration(6*slotSec) * time.Second):
 			w.mu.Lock()
 			w.emit(vh.Event{"ev": "Stopped", "prompt": false})
 			w.mu.Unlock()
@@ -608,7 +608,7 @@ func run(sc vh.Scenario, dir string, rec *vh.Rec) {
 		go func() { m.Stop(); close(done) }()
 		select {
 		case <-done:
-		case <-time.After(time.Duration(3*slotSec) * time.Second):
+		case <-time.After(time.Duration(6*slotSec) * time.Second):
 			w.mu.Lock()
 			w.emit(vh.Event{"ev": "Stopped", "prompt": false})
 			w.mu.Unlock()
